@@ -357,6 +357,352 @@ Section Content.
         rewrite C. cbn [spec_out].
         pose proof (absl_nonempty T ks Hi Hne) as Hn. destruct (absl T ks); [contradiction|reflexivity].
   Qed.
+
+  (* ---- cond: write {schema -> both, other -> a}, read a, remove both: behaves as a ---- *)
+  Definition cond_abs (ta : triple) (s : st) : smap := match s with SNode [sa; _] _ => tA ta sa | _ => [] end.
+  Definition cond_inv (ta tb : triple) (s : st) : Prop :=
+    match s with SNode [sa; sb] _ => tI ta sa /\ tI tb sb | _ => False end.
+
+  Theorem cond_refines ta tb : refines (tM ta) (tA ta) (tI ta) -> refines (tM tb) (tA tb) (tI tb) ->
+    refines (cond (tM ta) (tM tb)) (cond_abs ta) (cond_inv ta tb).
+  Proof.
+    intros Ra Rb. split.
+    - intros [m|[|sa [|sb [|x ks]]] aux] Hi; try contradiction. destruct Hi as [Ha _]. exact (r_wf _ _ _ Ra sa Ha).
+    - intros [m|[|sa [|sb [|x ks]]] aux] o Hi Ho; try contradiction. destruct Hi as [Ha Hb].
+      destruct (r_step _ _ _ Ra sa o Ha Ho) as (A1 & B1 & C1). destruct (r_step _ _ _ Rb sb o Hb Ho) as (A2 & B2 & C2).
+      destruct o as [r b [|]|r|rs|c n|rs]; cbn [cond];
+        destruct (tM ta sa _) as [sa1 x] eqn:Ea; try (destruct (tM tb sb _) as [sb1 y] eqn:Eb);
+        cbn [fst snd cond_abs cond_inv] in *; subst.
+      + split; [split; assumption|]. split; [exact B1|]. reflexivity.
+      + split; [split; assumption|]. split; [exact B1|reflexivity].
+      + split; [split; assumption|]. split; [exact B1|reflexivity].
+      + split; [split; assumption|]. split; [exact B1|reflexivity].
+      + split; [split; assumption|]. split; [exact B1|reflexivity].
+      + split; [split; assumption|]. split; [exact B1|]. reflexivity.
+  Qed.
+
+  (* ---- proxycache: the cache only ever holds blobs of the origin; behaves as the origin ---- *)
+  Definition sub (a b : smap) : Prop := forall k v, lookup k a = Some v -> lookup k b = Some v.
+  Definition pc_abs (to : triple) (s : st) : smap := match s with SNode [_; so] _ => tA to so | _ => [] end.
+  Definition pc_inv (tc to : triple) (s : st) : Prop :=
+    match s with SNode [sc; so] _ => tI tc sc /\ tI to so /\ sub (tA tc sc) (tA to so) | _ => False end.
+
+  Lemma lookup_spec_recv m r b sc k : wfm m -> b = content r ->
+    lookup k (spec_state m (Recv r b sc)) = if beqb k r then Some b else lookup k m.
+  Proof.
+    intros Hm Hb. cbn [spec_state]. destruct (lookup r m) as [v|] eqn:L.
+    - destruct (beqb k r) eqn:E; [|reflexivity]. apply beqb_eq in E. subst k. rewrite L, (wfm_lookup _ _ _ Hm L). congruence.
+    - apply lookup_insert.
+  Qed.
+
+  Lemma lookup_spec_remove m rs k : ssorted m -> lookup k (spec_state m (Remove rs)) = if mem k rs then None else lookup k m.
+  Proof. intros Hs. cbn [spec_state]. apply lookup_fold_remove. exact Hs. Qed.
+
+  Lemma mem_keys_lookup r (l : smap) : mem r (map fst l) = match lookup r l with Some _ => true | None => false end.
+  Proof.
+    induction l as [|[k v] l IH]; [reflexivity|]. cbn [map fst mem lookup]. destruct (beqb r k); [reflexivity|exact IH].
+  Qed.
+
+  Lemma mem_filter k (p : bytes -> bool) rs : mem k (filter p rs) = mem k rs && p k.
+  Proof.
+    induction rs as [|r rs IH]; [reflexivity|]. cbn [filter mem]. destruct (p r) eqn:Ep.
+    - cbn [mem]. rewrite IH. destruct (beqb k r) eqn:E; [|reflexivity]. apply beqb_eq in E. subst r. rewrite Ep. cbn. reflexivity.
+    - rewrite IH. destruct (beqb k r) eqn:E; [|reflexivity]. apply beqb_eq in E. subst r. rewrite Ep. cbn.
+      rewrite andb_false_r. reflexivity.
+  Qed.
+
+  Lemma pc_stat_all mc mo rs : wfm mc -> wfm mo -> sub mc mo ->
+    canon (stat_map mc rs ++ stat_map mo (filter (fun r => negb (mem r (map fst (stat_map mc rs)))) rs)) = stat_map mo rs.
+  Proof.
+    intros Hc Ho Hsub. apply sorted_ext; [apply canon_sorted|apply stat_map_sorted|]. intros k.
+    rewrite lookup_canon. rewrite <- (app_nil_r (stat_map mo _)).
+    change (stat_map mc rs ++ stat_map mo (filter (fun r => negb (mem r (map fst (stat_map mc rs)))) rs) ++ [])
+      with (concat [stat_map mc rs; stat_map mo (filter (fun r => negb (mem r (map fst (stat_map mc rs)))) rs)]).
+    rewrite lookup_concat. cbn [map first_some]. rewrite !lookup_stat_map, mem_filter, mem_keys_lookup, lookup_stat_map.
+    destruct (mem k rs) eqn:Ek; cbn [andb]; [|reflexivity].
+    destruct (lookup k mc) as [v|] eqn:Lc; cbn [option_map negb].
+    - rewrite (Hsub _ _ Lc). reflexivity.
+    - destruct (lookup k mo); reflexivity.
+  Qed.
+
+  Lemma pc_stat_none mc mo rs : sub mc mo ->
+    filter (fun r => negb (mem r (map fst (stat_map mc rs)))) rs = [] -> stat_map mc rs = stat_map mo rs.
+  Proof.
+    intros Hsub Hn. apply sorted_ext; [apply stat_map_sorted|apply stat_map_sorted|]. intros k.
+    rewrite !lookup_stat_map. destruct (mem k rs) eqn:Ek; [|reflexivity].
+    assert (Hm : mem k (filter (fun r => negb (mem r (map fst (stat_map mc rs)))) rs) = false) by (rewrite Hn; reflexivity).
+    rewrite mem_filter, Ek, mem_keys_lookup, lookup_stat_map, Ek in Hm. cbn [andb] in Hm.
+    destruct (lookup k mc) as [v|] eqn:Lc; cbn [option_map] in *; [|discriminate]. rewrite (Hsub _ _ Lc). reflexivity.
+  Qed.
+
+  Theorem proxycache_refines tc to : refines (tM tc) (tA tc) (tI tc) -> refines (tM to) (tA to) (tI to) ->
+    refines (proxycache (tM tc) (tM to)) (pc_abs to) (pc_inv tc to).
+  Proof.
+    intros Rc Ro. split.
+    - intros [m|[|sc [|so [|x ks]]] aux] Hi; try contradiction. destruct Hi as (_ & Ho & _). exact (r_wf _ _ _ Ro so Ho).
+    - intros [m|[|sc [|so [|x ks]]] aux] o Hi Hok; try contradiction. destruct Hi as (Hc & Ho & Hsub).
+      pose proof (r_wf _ _ _ Rc sc Hc) as Wc. pose proof (r_wf _ _ _ Ro so Ho) as Wo.
+      destruct o as [r b sch|r|rs|c n|rs]; cbn [proxycache].
+      + (* receive: origin, then cache *)
+        destruct (r_step _ _ _ Ro so _ Ho Hok) as (A2 & B2 & C2). destruct (tM to so _) as [so1 x]. cbn [fst snd] in *. subst x.
+        cbn [spec_out is_recv_ok].
+        destruct (r_step _ _ _ Rc sc _ Hc Hok) as (A1 & B1 & C1). destruct (tM tc sc _) as [sc1 y]. cbn [fst snd pc_abs pc_inv] in *.
+        split; [|split; [exact B2|reflexivity]]. split; [exact A1|]. split; [exact A2|].
+        intros k v. rewrite B1, B2, !lookup_spec_recv by (assumption || exact Hok).
+        destruct (beqb k r); [auto|apply Hsub].
+      + (* fetch *)
+        destruct (r_step _ _ _ Rc sc (Fetch r) Hc I) as (A1 & B1 & C1). destruct (tM tc sc _) as [sc1 x]. cbn [fst snd spec_state spec_out] in *. subst x.
+        destruct (lookup r (tA tc sc)) as [b|] eqn:Lc.
+        * cbn [fst snd pc_abs pc_inv]. split; [split; [exact A1|split; [exact Ho|rewrite B1; exact Hsub]]|].
+          split; [reflexivity|]. rewrite (Hsub _ _ Lc). reflexivity.
+        * destruct (r_step _ _ _ Ro so (Fetch r) Ho I) as (A2 & B2 & C2). destruct (tM to so _) as [so1 y]. cbn [fst snd spec_state spec_out] in *. subst y.
+          destruct (lookup r (tA to so)) as [b|] eqn:Lo.
+          -- assert (Hb : b = content r) by (eapply wfm_lookup; eassumption).
+             destruct (r_step _ _ _ Rc sc1 (Recv r b false) A1 Hb) as (A3 & B3 & C3). destruct (tM tc sc1 _) as [sc2 z]. cbn [fst snd pc_abs pc_inv] in *.
+             split; [|split; [exact B2|cbn [spec_out]; rewrite Lo; reflexivity]]. split; [exact A3|]. split; [exact A2|].
+             intros k v. rewrite B3, B1, B2, lookup_spec_recv by assumption.
+             destruct (beqb k r) eqn:E; [apply beqb_eq in E; subst k; rewrite Lo; auto|apply Hsub].
+          -- cbn [fst snd pc_abs pc_inv]. split; [|split; [exact B2|cbn [spec_out]; rewrite Lo; reflexivity]]. split; [exact A1|]. split; [exact A2|]. rewrite B1, B2. exact Hsub.
+      + (* stat *)
+        destruct (r_step _ _ _ Rc sc (Stat rs) Hc I) as (A1 & B1 & C1). destruct (tM tc sc _) as [sc1 x]. cbn [fst snd spec_state spec_out] in *. subst x.
+        destruct (filter (fun r => negb (mem r (map fst (stat_map (tA tc sc) rs)))) rs) as [|n0 need] eqn:En.
+        * cbn [fst snd pc_abs pc_inv]. split; [split; [exact A1|split; [exact Ho|rewrite B1; exact Hsub]]|]. split; [reflexivity|].
+          cbn [spec_out]. f_equal. apply pc_stat_none; assumption.
+        * destruct (r_step _ _ _ Ro so (Stat (n0 :: need)) Ho I) as (A2 & B2 & C2). destruct (tM to so _) as [so1 y]. cbn [fst snd spec_state spec_out] in *. subst y.
+          cbn [fst snd pc_abs pc_inv]. split; [split; [exact A1|split; [exact A2|rewrite B1, B2; exact Hsub]]|]. split; [exact B2|].
+          cbn [spec_out]. f_equal. rewrite <- En. apply pc_stat_all; assumption.
+      + (* enumerate: the origin *)
+        destruct (r_step _ _ _ Ro so (Enum c n) Ho I) as (A2 & B2 & C2). destruct (tM to so _) as [so1 y]. cbn [fst snd pc_abs pc_inv] in *.
+        split; [split; [exact Hc|split; [exact A2|rewrite B2; exact Hsub]]|]. split; [exact B2|exact C2].
+      + (* remove: cache, then origin *)
+        destruct (r_step _ _ _ Rc sc (Remove rs) Hc I) as (A1 & B1 & C1). destruct (tM tc sc _) as [sc1 x]. cbn [fst snd] in *. subst x.
+        destruct (r_step _ _ _ Ro so (Remove rs) Ho I) as (A2 & B2 & C2). destruct (tM to so _) as [so1 y]. cbn [fst snd pc_abs pc_inv spec_out is_ok] in *.
+        split; [|split; [exact B2|exact C2]]. split; [exact A1|]. split; [exact A2|].
+        intros k v. rewrite B1, B2, !lookup_spec_remove by (apply Wc || apply Wo). destruct (mem k rs); [discriminate|apply Hsub].
+  Qed.
+
+  (* ---- shard: every ref lives in the one kid its digest routes to ---- *)
+  Fixpoint seq_map {A B} (f : nat -> A -> B) (i : nat) (l : list A) : list B :=
+    match l with [] => [] | a :: r => f i a :: seq_map f (S i) r end.
+
+  Lemma nth_error_seq_map {A B} (f : nat -> A -> B) l : forall i j, nth_error (seq_map f i l) j = option_map (f (i + j)%nat) (nth_error l j).
+  Proof.
+    induction l as [|a l IH]; intros i [|j]; cbn [seq_map nth_error option_map]; try reflexivity.
+    - rewrite Nat.add_0_r. reflexivity.
+    - rewrite IH. replace (S i + j)%nat with (i + S j)%nat by (rewrite Nat.add_succ_r; reflexivity). reflexivity.
+  Qed.
+
+  Lemma seq_map_length {A B} (f : nat -> A -> B) l : forall i, length (seq_map f i l) = length l.
+  Proof. induction l as [|a l IH]; intros i; cbn; [reflexivity|rewrite IH; reflexivity]. Qed.
+
+  Lemma seq_steps_spec T ks (f : nat -> op) : okl T -> invl T ks -> (forall i, op_ok (f i)) -> forall i0,
+    let res := seq_map2 (fun i m k => m k (f i)) i0 (map tM T) ks in
+    invl T (map fst res) /\
+    absl T (map fst res) = seq_map (fun i m => spec_state m (f i)) i0 (absl T ks) /\
+    map snd res = seq_map (fun i m => spec_out m (f i)) i0 (absl T ks).
+  Proof.
+    intros Hok Hi Hf. induction Hi as [|t k T ks Ht _ IH]; intros i0; [cbn; repeat split; constructor|].
+    inversion Hok as [|? ? Hr Hok']; subst. destruct (IH Hok' (S i0)) as (A & B & C).
+    destruct (r_step _ _ _ Hr k (f i0) Ht (Hf i0)) as (A1 & B1 & C1).
+    cbn [map seq_map2 absl map2 seq_map fst snd]. fold (absl T ks).
+    split; [constructor; assumption|]. split.
+    - fold (absl T (map fst (seq_map2 (fun i m k => m k (f i)) (S i0) (map tM T) ks))). rewrite B. f_equal. exact B1.
+    - f_equal; assumption.
+  Qed.
+
+  Definition routed (n : nat) (ms : list smap) : Prop :=
+    forall i m k v, nth_error ms i = Some m -> lookup k m = Some v -> route n k = i.
+
+  Lemma first_some_at (l : list (option (list N))) i : (forall j, j <> i -> nth_error l j = None \/ nth_error l j = Some None) ->
+    first_some l = match nth_error l i with Some x => x | None => None end.
+  Proof.
+    revert i. induction l as [|x l IH]; intros i H; [destruct i; reflexivity|].
+    destruct i as [|i].
+    - cbn [nth_error first_some]. destruct x as [b|]; [reflexivity|].
+      rewrite (IH (length l)).
+      + rewrite (proj2 (nth_error_None l (length l))) by apply Nat.le_refl. reflexivity.
+      + intros j Hj. specialize (H (S j)). cbn [nth_error] in H. apply H. discriminate.
+    - cbn [nth_error first_some]. assert (Hx : x = None).
+      { assert (H0 : 0%nat <> S i) by discriminate. destruct (H 0%nat H0) as [E|E]; cbn in E; [discriminate|injection E as ->; reflexivity]. }
+      subst x. apply IH. intros j Hj. apply (H (S j)). congruence.
+  Qed.
+
+  Lemma lookup_routed n ms k : Forall ssorted ms -> routed n ms ->
+    lookup k (union ms) = match nth_error ms (route n k) with Some m => lookup k m | None => None end.
+  Proof.
+    intros Hs Hr. rewrite lookup_union_first by exact Hs. rewrite (first_some_at _ (route n k)).
+    - rewrite nth_error_map. destruct (nth_error ms (route n k)); reflexivity.
+    - intros j Hj. rewrite nth_error_map. destruct (nth_error ms j) as [m|] eqn:E; [right|left; reflexivity].
+      cbn [option_map]. f_equal. destruct (lookup k m) as [v|] eqn:L; [|reflexivity]. exfalso. apply Hj. symmetry. exact (Hr _ _ _ _ E L).
+  Qed.
+
+  Lemma nth_error_update_nth {A} (l : list A) : forall i j x, nth_error (update_nth i x l) j =
+    if Nat.eqb i j then match nth_error l j with Some _ => Some x | None => None end else nth_error l j.
+  Proof.
+    induction l as [|a l IH]; intros i j x.
+    - destruct i, j; cbn; try reflexivity; destruct (Nat.eqb i j); reflexivity.
+    - destruct i as [|i], j as [|j]; cbn [update_nth nth_error Nat.eqb]; try reflexivity. apply IH.
+  Qed.
+
+  Lemma update_nth_length {A} (l : list A) : forall i x, length (update_nth i x l) = length l.
+  Proof. induction l as [|a l IH]; intros [|i] x; cbn; try reflexivity. rewrite IH. reflexivity. Qed.
+
+  Lemma absl_update T : forall ks i t k k', nth_error T i = Some t -> nth_error ks i = Some k ->
+    absl T (update_nth i k' ks) = update_nth i (tA t k') (absl T ks).
+  Proof.
+    induction T as [|t0 T IH]; intros [|k0 ks] [|i] t k k' Ht Hk; cbn in *; try discriminate.
+    - injection Ht as ->. reflexivity.
+    - f_equal. eapply IH; eassumption.
+  Qed.
+
+  Lemma invl_update T : forall ks i t k', invl T ks -> nth_error T i = Some t -> tI t k' -> invl T (update_nth i k' ks).
+  Proof.
+    intros ks i t k' H. revert i. induction H as [|t0 k0 T ks H0 Hrest IH]; intros [|i] Ht Hk; cbn in *; try discriminate.
+    - injection Ht as ->. constructor; assumption.
+    - constructor; [assumption|apply IH; assumption].
+  Qed.
+
+  Lemma nth_error_absl T : forall ks i t k, nth_error T i = Some t -> nth_error ks i = Some k -> nth_error (absl T ks) i = Some (tA t k).
+  Proof.
+    induction T as [|t0 T IH]; intros [|k0 ks] [|i] t k Ht Hk; cbn in *; try discriminate.
+    - injection Ht as ->. injection Hk as ->. reflexivity.
+    - eapply IH; eassumption.
+  Qed.
+
+  Lemma invl_nth T ks i t k : invl T ks -> nth_error T i = Some t -> nth_error ks i = Some k -> tI t k.
+  Proof.
+    intros H. revert i. induction H as [|t0 k0 T ks H0 _ IH]; intros [|i] Ht Hk; cbn in *; try discriminate.
+    - injection Ht as ->. injection Hk as ->. exact H0.
+    - apply (IH i); assumption.
+  Qed.
+
+  Lemma invl_length T ks : invl T ks -> length ks = length T.
+  Proof. intros H. induction H; cbn; [reflexivity|f_equal; assumption]. Qed.
+
+  Lemma absl_length T ks : invl T ks -> length (absl T ks) = length T.
+  Proof. intros H. induction H; cbn; [reflexivity|f_equal; assumption]. Qed.
+
+  Lemma route_lt n k : (0 < n)%nat -> (route n k < n)%nat.
+  Proof.
+    intros Hn. unfold route. assert (N.of_nat n <> 0%N) by (destruct n; [inversion Hn|discriminate]).
+    pose proof (N.mod_lt (sum32 k) (N.of_nat n) H) as L. lia.
+  Qed.
+
+  Definition shard_abs (T : list triple) (s : st) : smap := match s with SNode ks _ => union (absl T ks) | _ => [] end.
+  Definition shard_inv (T : list triple) (s : st) : Prop :=
+    match s with SNode ks _ => invl T ks /\ routed (length T) (absl T ks) | _ => False end.
+
+  Lemma has_err_seq_stat ms (g : nat -> list bytes) : forall i, has_err (seq_map (fun i m => spec_out m (Stat (g i))) i ms) = false.
+  Proof. induction ms as [|m ms IH]; intros i; [reflexivity|]. cbn. apply IH. Qed.
+  Lemma has_err_seq_remove ms (g : nat -> list bytes) : forall i, has_err (seq_map (fun i m => spec_out m (Remove (g i))) i ms) = false.
+  Proof. induction ms as [|m ms IH]; intros i; [reflexivity|]. cbn. apply IH. Qed.
+
+  Lemma map_seq_map {A B C} (g : B -> C) (f : nat -> A -> B) l : forall i, map g (seq_map f i l) = seq_map (fun i a => g (f i a)) i l.
+  Proof. induction l as [|a l IH]; intros i; cbn; [reflexivity|rewrite IH; reflexivity]. Qed.
+
+  Lemma Forall_seq_map {A B} (P : B -> Prop) (f : nat -> A -> B) l : (forall i a, In a l -> P (f i a)) -> forall i, Forall P (seq_map f i l).
+  Proof.
+    induction l as [|a l IH]; intros H i; cbn; constructor; [apply H; left; reflexivity|apply IH; intros j b Hb; apply H; right; exact Hb].
+  Qed.
+
+  Theorem shard_refines T : okl T -> T <> [] -> refines (shard (map tM T)) (shard_abs T) (shard_inv T).
+  Proof.
+    intros Hok Hne. assert (Hn : (0 < length T)%nat) by (destruct T; [contradiction|cbn; apply Nat.lt_0_succ]).
+    split.
+    - intros [m|ks aux] Hi; [contradiction|]. destruct Hi as [Hi _]. apply wfm_union. apply absl_wf; assumption.
+    - intros [m|ks aux] o Hi Ho; [contradiction|]. destruct Hi as [Hi Hr]. cbn [shard_inv shard_abs] in *.
+      pose proof (absl_wf T ks Hok Hi) as Hw. pose proof (wfm_sorted_all _ Hw) as Hs.
+      assert (Hsingle : forall r, match o with Recv r' _ _ | Fetch r' => r' = r | _ => False end ->
+        shard_inv T (fst (shard (map tM T) (SNode ks aux) o)) /\
+        shard_abs T (fst (shard (map tM T) (SNode ks aux) o)) = spec_state (union (absl T ks)) o /\
+        snd (shard (map tM T) (SNode ks aux) o) = spec_out (union (absl T ks)) o).
+      { intros r Hro.
+        assert (E : shard (map tM T) (SNode ks aux) o =
+                    match nth_error (map tM T) (route (length (map tM T)) r), nth_error ks (route (length (map tM T)) r) with
+                    | Some m, Some k => let '(k', x) := m k o in (SNode (update_nth (route (length (map tM T)) r) k' ks) aux, x)
+                    | _, _ => (SNode ks aux, OErr EOther) end).
+        { destruct o as [r0 b sc|r0| | | ]; try contradiction; subst r0; reflexivity. }
+        rewrite E. clear E. rewrite map_length.
+        pose proof (route_lt (length T) r Hn) as Hlt.
+        destruct (nth_error T (route (length T) r)) as [t|] eqn:Et; [|apply nth_error_None in Et; exfalso; apply (Nat.lt_irrefl (length T)); eapply Nat.le_lt_trans; eassumption].
+        destruct (nth_error ks (route (length T) r)) as [k|] eqn:Ek; [|apply nth_error_None in Ek; rewrite (invl_length _ _ Hi) in Ek; exfalso; apply (Nat.lt_irrefl (length T)); eapply Nat.le_lt_trans; eassumption].
+        rewrite nth_error_map, Et. cbn [option_map].
+        assert (Hrt : refines (tM t) (tA t) (tI t)) by (unfold okl in Hok; rewrite Forall_forall in Hok; apply Hok; eapply nth_error_In; exact Et).
+        pose proof (invl_nth _ _ _ _ _ Hi Et Ek) as Hk.
+        destruct (r_step _ _ _ Hrt k o Hk Ho) as (A1 & B1 & C1). destruct (tM t k o) as [k' x]. cbn [fst snd shard_inv] in *. subst x.
+        pose proof (nth_error_absl _ _ _ _ _ Et Ek) as Ea.
+        assert (Hupd : absl T (update_nth (route (length T) r) k' ks) = update_nth (route (length T) r) (spec_state (tA t k) o) (absl T ks)).
+        { rewrite (absl_update T ks _ t k k' Et Ek), B1. reflexivity. }
+        assert (Hr' : routed (length T) (update_nth (route (length T) r) (spec_state (tA t k) o) (absl T ks))).
+        { intros j m kk v Hj Hl. rewrite nth_error_update_nth in Hj. destruct (Nat.eqb (route (length T) r) j) eqn:Ej.
+          - apply Nat.eqb_eq in Ej. subst j. rewrite Ea in Hj. injection Hj as <-.
+            destruct o as [r0 b sc| | | | ]; try contradiction.
+            + subst r0. rewrite lookup_spec_recv in Hl by (try exact Ho; eapply r_wf; eassumption).
+              destruct (beqb kk r) eqn:E; [apply beqb_eq in E; subst kk; reflexivity|eapply Hr; eassumption].
+            + cbn [spec_state] in Hl. eapply Hr; eassumption.
+          - eapply Hr; eassumption. }
+        split; [split; [eapply invl_update; eassumption|rewrite Hupd; exact Hr']|].
+        assert (Hs' : Forall ssorted (update_nth (route (length T) r) (spec_state (tA t k) o) (absl T ks))).
+        { apply Forall_forall. intros m Hm. apply In_nth_error in Hm as [j Hj]. rewrite nth_error_update_nth in Hj.
+          destruct (Nat.eqb _ j); [rewrite Forall_forall in Hs; destruct (nth_error (absl T ks) j) eqn:E; [injection Hj as <-; apply spec_state_sorted; apply (r_wf _ _ _ Hrt k Hk)|discriminate]|
+            rewrite Forall_forall in Hs; apply Hs; eapply nth_error_In; exact Hj]. }
+        split.
+        + cbn [shard_abs]. rewrite Hupd. apply sorted_ext; [apply union_sorted; exact Hs'|apply spec_state_sorted, union_sorted; exact Hs|].
+          intros kk. rewrite (lookup_routed _ _ kk Hs' Hr'). rewrite nth_error_update_nth.
+          destruct o as [r0 b sc|r0| | | ]; try contradiction; subst r0.
+          * rewrite lookup_spec_recv by (try exact Ho; apply wfm_union; exact Hw). rewrite (lookup_routed _ _ kk Hs Hr).
+            destruct (beqb kk r) eqn:E.
+            -- apply beqb_eq in E. subst kk. rewrite Nat.eqb_refl, Ea. rewrite lookup_spec_recv by (try exact Ho; eapply r_wf; eassumption). rewrite beqb_refl. reflexivity.
+            -- destruct (Nat.eqb (route (length T) r) (route (length T) kk)) eqn:Ej; [|reflexivity].
+               apply Nat.eqb_eq in Ej. rewrite <- Ej, Ea. rewrite lookup_spec_recv by (try exact Ho; eapply r_wf; eassumption). rewrite E. reflexivity.
+          * cbn [spec_state]. rewrite (lookup_routed _ _ kk Hs Hr). destruct (Nat.eqb (route (length T) r) (route (length T) kk)) eqn:Ej; [|reflexivity].
+            apply Nat.eqb_eq in Ej. rewrite <- Ej, Ea. reflexivity.
+        + destruct o as [r0 b sc|r0| | | ]; try contradiction; subst r0; cbn [spec_out]; [reflexivity|].
+          rewrite (lookup_routed _ _ r Hs Hr), Ea. reflexivity. }
+      destruct o as [r b sc|r|rs|c n|rs]; [exact (Hsingle r eq_refl)|exact (Hsingle r eq_refl)| | | ]; clear Hsingle; cbn [shard].
+      + (* stat: each kid is asked for the refs routed to it *)
+        rewrite map_length.
+        destruct (seq_steps_spec T ks (fun i => Stat (filter (fun r => Nat.eqb (route (length T) r) i) rs)) Hok Hi (fun _ => I) 0%nat) as (A & B & C).
+        cbv zeta in A, B, C. cbn [fst snd shard_inv shard_abs].
+        assert (Bid : absl T (map fst (seq_map2 (fun i m k => m k (Stat (filter (fun r => Nat.eqb (route (length T) r) i) rs))) 0 (map tM T) ks)) = absl T ks).
+        { rewrite B. clear. generalize 0%nat. induction (absl T ks) as [|m ms IH]; intros i; cbn; [reflexivity|rewrite IH; reflexivity]. }
+        split; [split; [exact A|rewrite Bid; exact Hr]|]. split; [rewrite Bid; reflexivity|].
+        rewrite C, has_err_seq_stat. rewrite <- (map_map snd stat_list), C, map_seq_map. cbn [spec_out stat_list]. f_equal.
+        apply sorted_ext; [apply canon_sorted|apply stat_map_sorted|]. intros k.
+        rewrite lookup_canon, lookup_concat, lookup_stat_map, (lookup_routed _ _ k Hs Hr).
+        rewrite (first_some_at _ (route (length T) k)).
+        * rewrite nth_error_map, nth_error_seq_map. destruct (nth_error (absl T ks) (route (length T) k)) as [m|]; cbn [option_map].
+          -- rewrite lookup_stat_map, mem_filter. cbn [Nat.add]. rewrite Nat.eqb_refl, andb_true_r. reflexivity.
+          -- destruct (mem k rs); reflexivity.
+        * intros j Hj. rewrite nth_error_map, nth_error_seq_map. destruct (nth_error (absl T ks) j) as [m|]; cbn [option_map]; [right|left; reflexivity].
+          f_equal. rewrite lookup_stat_map, mem_filter. cbn [Nat.add]. destruct (Nat.eqb (route (length T) k) j) eqn:E; [apply Nat.eqb_eq in E; congruence|].
+          rewrite andb_false_r. reflexivity.
+      + (* enumerate: merge of all kids *)
+        destruct (kid_steps_spec T ks _ Hok Hi Ho) as (A & B & C). cbv zeta in A, B, C. cbn [fst snd shard_inv shard_abs].
+        assert (Bid : absl T (map fst (kid_steps (map tM T) ks (Enum c n))) = absl T ks) by (rewrite B; cbn [spec_state]; apply map_id).
+        split; [split; [exact A|rewrite Bid; exact Hr]|]. split; [rewrite Bid; reflexivity|].
+        rewrite C, has_err_enum. rewrite <- (map_map snd enum_list), C, map_map. cbn [spec_out enum_list]. f_equal. apply union_enum. exact Hs.
+      + (* remove: each kid removes the refs routed to it *)
+        rewrite map_length.
+        destruct (seq_steps_spec T ks (fun i => Remove (filter (fun r => Nat.eqb (route (length T) r) i) rs)) Hok Hi (fun _ => I) 0%nat) as (A & B & C).
+        cbv zeta in A, B, C. cbn [fst snd shard_inv shard_abs].
+        set (ms' := seq_map (fun i m => spec_state m (Remove (filter (fun r => Nat.eqb (route (length T) r) i) rs))) 0 (absl T ks)) in *.
+        assert (Hs' : Forall ssorted ms').
+        { apply Forall_seq_map. intros i m Hm. apply spec_state_sorted. rewrite Forall_forall in Hs. apply Hs. exact Hm. }
+        assert (Hr' : routed (length T) ms').
+        { intros j m k v Hj Hl. unfold ms' in Hj. rewrite nth_error_seq_map in Hj. destruct (nth_error (absl T ks) j) as [m0|] eqn:E; [|discriminate].
+          cbn [option_map] in Hj. injection Hj as <-. cbv beta in Hl.
+          rewrite lookup_fold_remove in Hl by (rewrite Forall_forall in Hs; apply Hs; eapply nth_error_In; exact E).
+          destruct (mem k _); [discriminate|]. eapply Hr; eassumption. }
+        split; [split; [exact A|rewrite B; exact Hr']|]. split.
+        * rewrite B. apply sorted_ext; [apply union_sorted; exact Hs'|apply spec_state_sorted, union_sorted; exact Hs|].
+          intros k. rewrite (lookup_routed _ _ k Hs' Hr'), lookup_spec_remove by (apply union_sorted; exact Hs).
+          rewrite (lookup_routed _ _ k Hs Hr). unfold ms'. rewrite nth_error_seq_map.
+          destruct (nth_error (absl T ks) (route (length T) k)) as [m|] eqn:E; cbn [option_map]; [|destruct (mem k rs); reflexivity].
+          rewrite lookup_spec_remove by (rewrite Forall_forall in Hs; apply Hs; eapply nth_error_In; exact E).
+          rewrite mem_filter. cbn [Nat.add]. rewrite Nat.eqb_refl, andb_true_r. reflexivity.
+        * rewrite C, has_err_seq_remove. reflexivity.
+  Qed.
 End Content.
 
 (* ================= every nesting of the proved combinators ================= *)
@@ -368,68 +714,115 @@ Section Nest.
     match c with
     | Leaf cr => (leaf cr, leaf_abs, leaf_inv content)
     | Replica subs => let T := map trip subs in (replica (map tM T), node_abs T, node_inv T)
+    | Shard subs => let T := map trip subs in (shard (map tM T), shard_abs T, shard_inv T)
+    | Cond a b => (cond (tM (trip a)) (tM (trip b)), cond_abs (trip a), cond_inv (trip a) (trip b))
+    | ProxyCache c o => (proxycache (tM (trip c)) (tM (trip o)), pc_abs (trip o), pc_inv (trip c) (trip o))
     | _ => (sem c, (fun _ => []), (fun _ => False))
     end.
 
-  (* the shapes covered by the theorem: any nesting of replicas (all replicas written and read) over leaves that
-     support removal *)
+  (* the shapes covered by the theorem: any nesting of replicas (all replicas written and read), shards, cond and
+     proxycache (eviction aside) over leaves that support removal *)
   Fixpoint shape_ok (c : cfg) : bool :=
     match c with
     | Leaf cr => cr
-    | Replica subs => negb (match subs with [] => true | _ => false end) && forallb shape_ok subs
+    | Replica subs | Shard subs => negb (match subs with [] => true | _ => false end) && forallb shape_ok subs
+    | Cond a b => shape_ok a && shape_ok b
+    | ProxyCache c o => shape_ok c && shape_ok o
     | _ => false
     end.
 
   Lemma cfg_ind' (P : cfg -> Prop) :
     (forall cr, P (Leaf cr)) ->
     (forall subs, Forall P subs -> P (Replica subs)) ->
-    (forall subs, P (Shard subs)) -> (forall subs, P (Union subs)) ->
+    (forall subs, Forall P subs -> P (Shard subs)) -> (forall subs, P (Union subs)) ->
     (forall d l u, P (Overlay d l u)) -> (forall m, P (Namespace m)) ->
-    (forall c o, P (ProxyCache c o)) -> (forall a b, P (Cond a b)) ->
+    (forall c o, P c -> P o -> P (ProxyCache c o)) -> (forall a b, P a -> P b -> P (Cond a b)) ->
     forall c, P c.
   Proof.
     intros HL HR HS HU HO HN HP HC. fix IH 1. intros [cr|subs|subs|subs|d l u|m|c o|a b].
     - apply HL.
     - apply HR. induction subs as [|x xs IHxs]; constructor; [apply IH|exact IHxs].
-    - apply HS.
+    - apply HS. induction subs as [|x xs IHxs]; constructor; [apply IH|exact IHxs].
     - apply HU.
     - apply HO.
     - apply HN.
-    - apply HP.
-    - apply HC.
+    - apply HP; apply IH.
+    - apply HC; apply IH.
+  Qed.
+
+  Lemma kids_refine subs : Forall (fun c => shape_ok c = true -> tM (trip c) = sem c /\ refines content (sem c) (tA (trip c)) (tI (trip c))) subs ->
+    (forall x, In x subs -> shape_ok x = true) ->
+    map tM (map trip subs) = map sem subs /\ okl content (map trip subs).
+  Proof.
+    intros IH Hall. split.
+    - rewrite map_map. apply map_ext_in. intros x Hx. rewrite Forall_forall in IH. apply (IH x Hx). apply Hall. exact Hx.
+    - apply Forall_map. apply Forall_forall. intros x Hx. rewrite Forall_forall in IH.
+      destruct (IH x Hx (Hall x Hx)) as [E R]. rewrite E. exact R.
   Qed.
 
   Theorem nest_refines : forall c, shape_ok c = true ->
     tM (trip c) = sem c /\ refines content (sem c) (tA (trip c)) (tI (trip c)).
   Proof.
-    induction c as [cr|subs IH| | | | | | ] using cfg_ind'; cbn [shape_ok]; intros Hs; try discriminate.
+    induction c as [cr|subs IH|subs IH| | | |c o IHc IHo|a b IHa IHb] using cfg_ind'; cbn [shape_ok]; intros Hs; try discriminate.
     - subst cr. split; [reflexivity|]. cbn [trip tA tI sem fst snd]. apply leaf_refines.
     - apply andb_true_iff in Hs as [Hne Hall]. rewrite forallb_forall in Hall.
-      assert (HM : map tM (map trip subs) = map sem subs).
-      { rewrite map_map. apply map_ext_in. intros x Hx. rewrite Forall_forall in IH. apply (IH x Hx). apply Hall. exact Hx. }
+      destruct (kids_refine subs IH Hall) as [HM Hok].
       split; [cbn [trip tM fst]; rewrite HM; reflexivity|].
-      cbn [trip tA tI fst snd sem]. rewrite <- HM. apply replica_refines.
-      + apply Forall_map. apply Forall_forall. intros x Hx. rewrite Forall_forall in IH.
-        destruct (IH x Hx (Hall x Hx)) as [E R]. rewrite E. exact R.
-      + destruct subs; [discriminate|discriminate].
+      cbn [trip tA tI fst snd sem]. rewrite <- HM. apply replica_refines; [exact Hok|destruct subs; discriminate].
+    - apply andb_true_iff in Hs as [Hne Hall]. rewrite forallb_forall in Hall.
+      destruct (kids_refine subs IH Hall) as [HM Hok].
+      split; [cbn [trip tM fst]; rewrite HM; reflexivity|].
+      cbn [trip tA tI fst snd sem]. rewrite <- HM. apply shard_refines; [exact Hok|destruct subs; discriminate].
+    - apply andb_true_iff in Hs as [Hc Ho]. destruct (IHc Hc) as [Ec Rc]. destruct (IHo Ho) as [Eo Ro].
+      split; [cbn [trip tM fst]; rewrite Ec, Eo; reflexivity|].
+      cbn [trip tA tI fst snd sem]. rewrite <- Ec, <- Eo. apply proxycache_refines; [rewrite Ec; exact Rc|rewrite Eo; exact Ro].
+    - apply andb_true_iff in Hs as [Ha Hb]. destruct (IHa Ha) as [Ea Ra]. destruct (IHb Hb) as [Eb Rb].
+      split; [cbn [trip tM fst]; rewrite Ea, Eb; reflexivity|].
+      cbn [trip tA tI fst snd sem]. rewrite <- Ea, <- Eb. apply cond_refines; [rewrite Ea; exact Ra|rewrite Eb; exact Rb].
+  Qed.
+
+  Lemma kids_init subs : Forall (fun c => shape_ok c = true -> tI (trip c) (init c)) subs -> (forall x, In x subs -> shape_ok x = true) ->
+    invl (map trip subs) (map init subs).
+  Proof.
+    intros IH Hall. unfold invl. induction subs as [|x xs IHx]; [constructor|]. cbn [map]. inversion IH; subst.
+    constructor; [apply H1; apply Hall; left; reflexivity|apply IHx; [assumption|intros y Hy; apply Hall; right; exact Hy]].
+  Qed.
+
+  Lemma kids_abs subs : Forall (fun c => shape_ok c = true -> tA (trip c) (init c) = []) subs -> (forall x, In x subs -> shape_ok x = true) ->
+    Forall (fun m => m = []) (absl (map trip subs) (map init subs)).
+  Proof.
+    intros IH Hall. induction subs as [|x xs IHx]; [constructor|]. cbn [map absl map2]. inversion IH; subst.
+    constructor; [apply H1; apply Hall; left; reflexivity|apply IHx; [assumption|intros y Hy; apply Hall; right; exact Hy]].
+  Qed.
+
+  Lemma union_all_nil ms : Forall (fun m => m = []) ms -> union ms = [].
+  Proof. intros H. induction H as [|m ms -> _ IH]; [reflexivity|]. cbn [union fold_right]. fold (union ms). rewrite IH. reflexivity. Qed.
+
+  Lemma init_abs : forall c, shape_ok c = true -> tA (trip c) (init c) = [].
+  Proof.
+    induction c as [cr|subs IH|subs IH| | | |c o IHc IHo|a b IHa IHb] using cfg_ind'; cbn [shape_ok]; intros Hs; try discriminate.
+    - reflexivity.
+    - apply andb_true_iff in Hs as [_ Hall]. rewrite forallb_forall in Hall. cbn [trip tA fst snd init node_abs].
+      apply union_all_nil. apply kids_abs; assumption.
+    - apply andb_true_iff in Hs as [_ Hall]. rewrite forallb_forall in Hall. cbn [trip tA fst snd init shard_abs].
+      apply union_all_nil. apply kids_abs; assumption.
+    - apply andb_true_iff in Hs as [Hc Ho]. cbn [trip tA fst snd init pc_abs]. apply IHo. exact Ho.
+    - apply andb_true_iff in Hs as [Ha Hb]. cbn [trip tA fst snd init cond_abs]. apply IHa. exact Ha.
   Qed.
 
   Lemma init_inv : forall c, shape_ok c = true -> tI (trip c) (init c).
   Proof.
-    induction c as [cr|subs IH| | | | | | ] using cfg_ind'; cbn [shape_ok]; intros Hs; try discriminate.
+    induction c as [cr|subs IH|subs IH| | | |c o IHc IHo|a b IHa IHb] using cfg_ind'; cbn [shape_ok]; intros Hs; try discriminate.
     - cbn. split; constructor.
-    - apply andb_true_iff in Hs as [_ Hall]. rewrite forallb_forall in Hall. cbn [trip tI snd init node_inv].
-      unfold invl. clear -IH Hall. induction subs as [|x xs IHx]; [constructor|]. cbn [map]. inversion IH; subst.
-      constructor; [apply H1; apply Hall; left; reflexivity|apply IHx; [assumption|intros y Hy; apply Hall; right; exact Hy]].
-  Qed.
-
-  Lemma init_abs : forall c, shape_ok c = true -> tA (trip c) (init c) = [].
-  Proof.
-    induction c as [cr|subs IH| | | | | | ] using cfg_ind'; cbn [shape_ok]; intros Hs; try discriminate.
-    - reflexivity.
-    - apply andb_true_iff in Hs as [_ Hall]. rewrite forallb_forall in Hall. cbn [trip tA fst snd init node_abs].
-      clear -IH Hall. induction subs as [|x xs IHx]; [reflexivity|]. cbn [map absl map2 union fold_right]. inversion IH; subst.
-      rewrite H1 by (apply Hall; left; reflexivity). rewrite merge_nil_l. apply IHx; [assumption|intros y Hy; apply Hall; right; exact Hy].
+    - apply andb_true_iff in Hs as [_ Hall]. rewrite forallb_forall in Hall. cbn [trip tI snd init node_inv]. apply kids_init; assumption.
+    - apply andb_true_iff in Hs as [_ Hall]. rewrite forallb_forall in Hall. cbn [trip tI snd init shard_inv].
+      split; [apply kids_init; assumption|].
+      assert (Hnil : Forall (fun m => m = []) (absl (map trip subs) (map init subs))).
+      { apply kids_abs; [|exact Hall]. apply Forall_forall. intros x Hx Hsx. apply init_abs. exact Hsx. }
+      intros i m k v Hi Hl. rewrite Forall_forall in Hnil. rewrite (Hnil m (nth_error_In _ _ Hi)) in Hl. discriminate.
+    - apply andb_true_iff in Hs as [Hc Ho]. cbn [trip tI snd init pc_inv]. split; [apply IHc; exact Hc|]. split; [apply IHo; exact Ho|].
+      rewrite (init_abs c Hc). intros k v Hl. discriminate.
+    - apply andb_true_iff in Hs as [Ha Hb]. cbn [trip tI snd init cond_inv]. split; [apply IHa; exact Ha|apply IHb; exact Hb].
   Qed.
 
   Fixpoint run_spec (m : smap) (ops : list op) : list out :=
